@@ -236,6 +236,10 @@ func main() {
 		if err != nil {
 			return err
 		}
+		nonePkg, err := c.Load("ssnone")
+		if err != nil {
+			return err
+		}
 		if err := l.Consts(socks, "Version", "MethodNoAuthenticationRequired", "MethodGSSAPI", "MethodUsernamePassword", "MethodNoAcceptable",
 			"CmdConnect", "CmdBind", "CmdUDPAssociate",
 			"ReplySucceeded", "ReplyGeneralSocksServerFailure", "ReplyConnectionNotAllowedByRuleset", "ReplyNetworkUnreachable",
@@ -300,6 +304,18 @@ func main() {
 		if err != nil {
 			return err
 		}
+		// state that outlives one connection: package-level variables and fields of the long-lived client /
+		// server objects. Everything recognisably immutable (error values, constant arrays, interface
+		// assertions; configuration fields of immutable type) is listed as read-only; anything else is
+		// "shared mutable state" and breaks the side condition `connections_share_no_state`.
+		ss, ro, err := sharedState(map[string]*gen.Pkg{"socks5": socks, "httpproxy": hp, "ssnone": nonePkg})
+		if err != nil {
+			return err
+		}
+		l.Raw("/-- package-level variables and long-lived object fields of socks5 / httpproxy / ssnone (non-test, linux) that are NOT recognisably immutable -/\n")
+		l.Raw("def sharedState : List String := " + gen.LeanStrList(ss) + "\n")
+		l.Raw("/-- the recognised read-only ones, for the record -/\n")
+		l.Raw("def sharedReadOnly : List String := " + gen.LeanStrList(ro) + "\n")
 		l.BoolDef("connectKeepsReadAhead", keep, "httpproxy.ServerHandle, CONNECT branch: `if rwbr.Buffered() > 0 { rw = newReadBufferedNetioConn(rw, rwbr) }` present before the pending conn is built")
 		return nil
 	})
@@ -331,4 +347,124 @@ func findConstString(p *gen.Pkg, fn, name string) (string, error) {
 		}
 	}
 	return "", fmt.Errorf("%s: constant %s not found", fn, name)
+}
+
+// immutableFieldTypes: types of fields of long-lived client/server objects that carry configuration only.
+var immutableFieldTypes = map[string]bool{
+	"string": true, "bool": true, "conn.Addr": true, "netio.StreamClient": true, "[]byte": true,
+	"map[string]UserInfo": true, "map[string]string": true, "*tls.Config": true, "ProxyServer": true,
+}
+
+// longLived: the objects that serve many connections.
+var longLived = map[string][]string{
+	"socks5":    {"StreamClient", "AuthStreamClient", "StreamServer", "AuthStreamServer"},
+	"httpproxy": {"ProxyClient", "ProxyServer", "TLSProxyServer"},
+	"ssnone":    {"StreamClient", "StreamServer"},
+}
+
+func sharedState(pkgs map[string]*gen.Pkg) (mutable, readonly []string, err error) {
+	for _, name := range []string{"httpproxy", "socks5", "ssnone"} {
+		p := pkgs[name]
+		seenTypes := map[string]bool{}
+		for _, f := range p.Files {
+			for _, d := range f.Decls {
+				gd, ok := d.(*ast.GenDecl)
+				if !ok {
+					continue
+				}
+				for _, sp := range gd.Specs {
+					switch sp := sp.(type) {
+					case *ast.ValueSpec:
+						if gd.Tok != token.VAR {
+							continue
+						}
+						for i, id := range sp.Names {
+							if id.Name == "_" {
+								continue
+							}
+							var init ast.Expr
+							if i < len(sp.Values) {
+								init = sp.Values[i]
+							}
+							desc := name + "." + id.Name
+							switch {
+							case init != nil && isErrorsNew(p, init):
+								readonly = append(readonly, desc+" (error value)")
+							case init != nil && isConstArray(p, init):
+								readonly = append(readonly, desc+" (constant array)")
+							default:
+								t := "?"
+								if sp.Type != nil {
+									t = p.Src(sp.Type)
+								} else if init != nil {
+									if tv, ok := p.Info.Types[init]; ok && tv.Type != nil {
+										t = tv.Type.String()
+									}
+								}
+								mutable = append(mutable, desc+": "+t)
+							}
+						}
+					case *ast.TypeSpec:
+						st, ok := sp.Type.(*ast.StructType)
+						if !ok {
+							continue
+						}
+						for _, ll := range longLived[name] {
+							if sp.Name.Name != ll {
+								continue
+							}
+							seenTypes[ll] = true
+							for _, fl := range st.Fields.List {
+								ft := p.Src(fl.Type)
+								for _, fn := range fl.Names {
+									desc := name + "." + ll + "." + fn.Name + ": " + ft
+									if immutableFieldTypes[ft] {
+										readonly = append(readonly, desc)
+									} else {
+										mutable = append(mutable, desc)
+									}
+								}
+								if len(fl.Names) == 0 {
+									mutable = append(mutable, name+"."+ll+" embeds "+ft)
+								}
+							}
+						}
+					}
+				}
+			}
+		}
+		for _, ll := range longLived[name] {
+			if !seenTypes[ll] {
+				return nil, nil, fmt.Errorf("%s: long-lived type %s not found (renamed?)", name, ll)
+			}
+		}
+	}
+	return mutable, readonly, nil
+}
+
+func isErrorsNew(p *gen.Pkg, e ast.Expr) bool {
+	call, ok := e.(*ast.CallExpr)
+	if !ok || p.Src(call.Fun) != "errors.New" || len(call.Args) != 1 {
+		return false
+	}
+	_, ok = constStr(p, call.Args[0])
+	return ok
+}
+
+// isConstArray: `[N]byte{constants...}` (a value type: every use copies it).
+func isConstArray(p *gen.Pkg, e ast.Expr) bool {
+	cl, ok := e.(*ast.CompositeLit)
+	if !ok {
+		return false
+	}
+	at, ok := cl.Type.(*ast.ArrayType)
+	if !ok || at.Len == nil || p.Src(at.Elt) != "byte" {
+		return false
+	}
+	for _, el := range cl.Elts {
+		if _, ok := p.EvalInt(el); !ok {
+			return false
+		}
+	}
+	return true
 }
